@@ -77,7 +77,8 @@ def _sig(e, bad):
     k = e["ev"]
     if k == "derive":
         types = sorted({x["d"]["type"] for x in e["ks"]})
-        return "keyderivation/%s/DeriveKeyset %s%s %s" % (e["route"], "+".join(types), " multi" if len(e["ks"]) > 1 else "", bad[0])
+        return "keyderivation/%s/DeriveKeyset%s %s%s %s" % (e["route"], "[" + e["kind"] + "]" if e.get("kind") else "", "+".join(types),
+                                                             " multi" if len(e["ks"]) > 1 else "", bad[0])
     if k in USES:
         return "keyderivation/derived-key-use/%s/%s %s" % (k, e.get("type"), bad[0])
     if k == "maprule":
@@ -93,6 +94,8 @@ def _coverage(ctx, trace, n_shapes):
     for line in open(trace):
         e = json.loads(line)
         c[e["ev"]] += 1
+        if e["ev"] == "derive" and e.get("kind"):
+            c["derive:" + e["kind"]] += 1
         if e["ev"] == "derive" and e.get("route") == "plan":
             planned.add(json.dumps(e["ks"]))
         if e["ev"] == "derive" and e["ok"]:
@@ -116,7 +119,7 @@ def _coverage(ctx, trace, n_shapes):
         raise vlib.Infra("C17: derived key types not all used through their primitive: missing %s" % sorted(TYPES - used))
     if multi < 20:
         raise vlib.Infra("C17: too few multi-key deriver keysets (%d)" % multi)
-    for k in ("distinct", "maprule", "stream"):
+    for k in ("distinct", "maprule", "stream", "derive:reuse", "derive:repeat"):
         if c[k] == 0:
             raise vlib.Infra("C17: event class %s never executed" % k)
     ctx.cov["event_classes"] = dict(sorted(c.items()))
@@ -135,6 +138,10 @@ def run(ctx):
         "constructor, and the derived handle is used through the ordinary primitive of its type; the internal per-type "
         "rule and the HKDF stream are driven directly on arbitrary streams / chunkings incl. the 255*HashLen limit. Every "
         "event judged by TLC against Derivation.tla (RFC 5869 in TLA+)")
+    ctx.cov["buffers"] = ("the derivation salt lives in ONE reused buffer scribbled over after every call; on the same deriver object "
+                          "DeriveKeyset(salt) x2 is followed by DeriveKeyset(other salt of the same length, same buffer) [kind=reuse] "
+                          "and DeriveKeyset(salt) again [kind=repeat], each judged by the reference; constructor inputs, messages, "
+                          "AD are scribbled likewise; handles are projected after the scribble")
     ctx.assumptions += ["HMAC/SHA, AES-GCM, ChaCha20-Poly1305, Ed25519 and the AES block are the JDK's",
                         "AES-GCM-HKDF streaming keys: usability is checked against an ordinary Tink key built from the derived "
                         "bytes (no streaming reference in this check); the derived bytes themselves are judged by the reference",
